@@ -28,8 +28,9 @@ Inductive vrel (Sg : sigs) : value -> value -> Prop :=
 | VR_obj : forall ty tag fs fs', Forall2 (vrel Sg) fs fs' -> vrel Sg (VObj ty tag fs) (VObj ty tag fs')
 | VR_clo : forall ty cls cls' ne le rho cc,
     map fst le = vars cc ->
-    Forall2 (fun cl cl' => cl_xtor cl' = cl_xtor cl /\ cl_ctx cl' = cl_ctx cl /\
-                           srel Sg rho (cl_ctx cl ++ cc) (cl_body cl) (cl_body cl')) cls cls' ->
+    Forall2 (fun cl cl' => cl_xtor cl' = cl_xtor cl /\ (cl_ctx cl' = cl_ctx cl /\
+                           untouched rho (ids (cl_ctx cl)) /\
+                           srel Sg rho (cl_ctx cl ++ cc) (cl_body cl) (cl_body cl'))) cls cls' ->
     (forall x, In x (fv_clauses cls) ->
        exists v v', lookup ne x = Some v /\ lookup le (sub_n rho x) = Some v' /\ vrel Sg v v') ->
     vrel Sg (VClo ty cls ne) (VClo ty cls' le).
@@ -710,5 +711,114 @@ Section Sim.
     assert (Eone : rebind le [mkb vr Prd t] [mkb v' Prd t] = [(v', VObj ty0 tag fs')]).
     { unfold rebind; simpl. unfold vr. rewrite sub_id_n, (getv_Some _ _ _ L2). auto. }
     rewrite Eone. rewrite (switch_step P' n1 le0 v' v' ty0 t tag fs' cls' cl' e1'); auto.
+  Qed.
+  (* ---------------- definitions of the linearized program ---------------- *)
+  Lemma find_def_lin_defs : forall ds m l d,
+    (forall d0, In d0 ds -> def_ok Sg m d0 = true) ->
+    find (fun d0 => ident_eqb (dname d0) l) ds = Some d ->
+    exists d' m0, find (fun d0 => ident_eqb (dname d0) l) (fst (lin_defs ds m)) = Some d' /\
+                  dctx d' = dctx d /\ def_ok Sg m0 d = true /\
+                  dbody d' = fst (lin (stmt_size (dbody d)) (dbody d) (dctx d) m0).
+  Proof.
+    induction ds as [|d0 r IH]; intros m l d Hok Hf; simpl in *; [discriminate|].
+    pose proof (linearize_def_spec Sg d0 m (Hok d0 (or_introl eq_refl))) as D.
+    unfold lin_def in *.
+    destruct (lin (stmt_size (dbody d0)) (dbody d0) (dctx d0) m) as [b m1] eqn:E.
+    destruct D as [_ [D2 _]]. simpl in D2.
+    destruct (lin_defs r m1) as [r' m2] eqn:E'. simpl.
+    destruct (ident_eqb (dname d0) l) eqn:El.
+    - inversion Hf; subst d0. eexists. exists m. split; [reflexivity|]. simpl. rewrite E. auto.
+    - destruct (IH m1 l d) as [d' [m0 [F1 F2]]]; auto.
+      { intros d1 Hd1. eapply def_ok_mono; [|apply Hok; auto]. auto. }
+      rewrite E' in F1. simpl in F1. eauto.
+  Qed.
+
+  Lemma find_def_linearize : forall l d, find_def P l = Some d ->
+    exists d' m0, find_def P' l = Some d' /\ dctx d' = dctx d /\ def_ok Sg m0 d = true /\
+                  dbody d' = fst (lin (stmt_size (dbody d)) (dbody d) (dctx d) m0).
+  Proof.
+    intros l d H. unfold find_def in *.
+    destruct (find_def_lin_defs (pdefs P) (pmax P) l d (prog_ok_defs P HP) H) as [d' [m0 [F1 F2]]].
+    exists d', m0. split; auto. unfold linearize.
+    destruct (lin_defs (pdefs P) (pmax P)) as [ds mm] eqn:E. simpl in *. auto.
+  Qed.
+
+  Lemma srel_def : forall d d' m0, def_ok Sg m0 d = true ->
+    dbody d' = fst (lin (stmt_size (dbody d)) (dbody d) (dctx d) m0) ->
+    srel [] (dctx d) (dbody d) (dbody d').
+  Proof.
+    intros d d' m0 Hok Hb. apply def_ok_inv in Hok. destruct Hok as [Hax Hinv].
+    assert (Hns : has_subst (dbody d) = false) by (eapply ax_check_no_subst; eauto).
+    apply srel_intro with (f := stmt_size (dbody d)) (m := m0); auto.
+    - intros x Hx. simpl. tauto.
+    - rewrite sub_s_nil; auto.
+    - rewrite sub_s_nil; auto.
+    - rewrite sub_s_nil; auto.
+  Qed.
+
+  Lemma sub_n_nil : forall x, sub_n [] x = x.
+  Proof. reflexivity. Qed.
+
+  (* the callee's / a method's parameters bound to related values *)
+  Lemma erel_params : forall (ps : ctx) ws ws' F,
+    Forall2 vrel ws ws' -> length (vars ps) = length ws -> (forall x, In x F -> In x (ids ps)) ->
+    erel [] F (combine (vars ps) ws) (combine (vars ps) ws').
+  Proof.
+    intros ps ws ws' F Hws Hlen HF x Hx. rewrite sub_n_nil.
+    apply (lookup_combine_F2 vrel (vars ps) ws ws' x Hws Hlen). rewrite ids_vars. auto.
+  Qed.
+
+  Lemma lin_call_form : forall f l (ar : ctx) c m,
+    (forall x, In x (ids ar) -> x <= m) ->
+    exists fr, same_shape ar fr /\
+      (fst (lin (S f) (Call l ar) c m) = Substitute (combine fr (vars ar)) (Call l []) \/
+       (fst (lin (S f) (Call l ar) c m) = Call l [] /\ c = ar /\ fr = ar)).
+  Proof.
+    intros f l ar c m Hb. rewrite lin_call.
+    destruct (ctx_eqb c ar) eqn:Eq.
+    - exists ar. split; [apply same_shape_refl|]. right. apply ctx_eqb_eq in Eq. auto.
+    - destruct (freshen ar [] m) as [fr m1] eqn:Ef.
+      destruct (freshen_positions _ _ _ _ _ Ef) as [F2 _]. exists fr. split; auto.
+  Qed.
+
+  (* ---------------- call ---------------- *)
+  Lemma sim_call : forall n, sim_n n -> forall rho c l args s' ne le out o,
+    srel rho c (Call l args) s' -> map fst le = vars c -> erel rho (fv (Call l args)) ne le ->
+    exec_named (S n) P ne (Call l args) out = o -> good o -> exists n', exec_linear n' P' le s' out = o.
+  Proof.
+    intros n IH rho c l args s' ne le out o Hs Hsh He Hrun Hg.
+    apply srel_fuel in Hs. destruct Hs as [f [m [Hsz [Hns [Hu [Hax [Hinv ->]]]]]]].
+    simpl sub_s in *. simpl in Hax.
+    assert (I1 : NoDup (ids c)) by apply Hinv.
+    assert (I4 : forall x, In x (ids c) -> x <= m) by apply Hinv.
+    set (ar := map (sub_b rho) args) in *.
+    destruct (lookup_label Sg l) as [ps|] eqn:El; try discriminate.
+    apply andb_true_iff in Hax. destruct Hax as [Hsig Hargs].
+    assert (Har : forall b, In b ar -> In (idn (bvar b)) (ids c)) by (apply has_b_sub_ids; auto).
+    destruct (lin_call_form f l ar c m) as [fr [Hshape Hform]].
+    { intros x Hx. apply In_ids_ex in Hx. destruct Hx as [b [B1 B2]]. subst. auto. }
+    (* named step *)
+    simpl in Hrun.
+    destruct (find_def P l) as [d|] eqn:Ed; [|subst; exfalso; eapply finish_stuck_not_good; eauto].
+    destruct (lookups ne (vars args)) as [ws|] eqn:Ew; [|subst; exfalso; eapply finish_stuck_not_good; eauto].
+    destruct (bind (vars (dctx d)) ws) as [ne'|] eqn:Eb; [|subst; exfalso; eapply finish_stuck_not_good; eauto].
+    apply bind_Some_length in Eb. destruct Eb as [Hlen ->].
+    assert (Hws : Forall2 vrel ws (map (fun b => getv le (idn (bvar b))) ar)).
+    { eapply args_vrel; eauto. intros b Hb. simpl. apply union_In. left. apply In_ids; auto. }
+    destruct (find_def_linearize l d Ed) as [d' [m0 [Ed' [Hctx [Hok Hbody]]]]].
+    set (ws' := map (fun b => getv le (idn (bvar b))) ar) in *.
+    assert (Hlen' : length (vars (dctx d)) = length ws') by (rewrite Hlen; eapply F2_length; eauto).
+    pose proof (def_ok_inv _ _ _ Hok) as [Haxd _].
+    destruct (IH [] (dctx d) (dbody d) (dbody d') (combine (vars (dctx d)) ws) (combine (vars (dctx d)) ws') out o)
+      as [n1 Hn1]; auto.
+    { eapply srel_def; eauto. }
+    { apply combine_map_fst; auto. }
+    { apply erel_params; auto. intros x Hx. eapply ax_check_fv; eauto. }
+    assert (Hfrlen : length fr = length ar) by (symmetry; apply same_shape_length; auto).
+    destruct (wrap_exec P' c le fr ar (Call l []) (fst (lin (S f) (Call l ar) c m)) (S n1) out Hsh I1) as [j Hj];
+      auto.
+    exists (j + S n1)%nat. rewrite Hj.
+    rewrite (call_step P' n1 (rebind le ar fr) l [] d' (combine (vars (dctx d)) ws')); auto.
+    rewrite Hctx, rebind_snd by auto. apply bind_combine; auto.
   Qed.
 End Sim.
